@@ -9,6 +9,8 @@ use crate::osim::{OCfg, OSim};
 use crate::wire::app::{self, fc};
 
 const CONFIRM_TIMEOUT: u64 = 5000;
+/// events per `UpdMany` (3 octets each as g2v1 with 16-bit index: three fragments at tx 249)
+const MANY: u64 = 200;
 
 #[derive(Copy, Clone, Debug, PartialEq, Eq)]
 enum R {
@@ -77,6 +79,9 @@ enum Ev {
     SolConfirm(bool),
     UnsConfirm,
     Upd,
+    /// macro update: enough class 1 events that a class 1 READ is answered in several fragments,
+    /// each of which (the final one too) awaits a confirm
+    UpdMany,
     Timeout,
     Reconnect,
 }
@@ -87,6 +92,7 @@ pub struct C05 {
     depth: usize,
     tx: usize,
     unsol: bool,
+    event_buf: u16,
 }
 
 fn all_requests() -> Vec<R> {
@@ -123,7 +129,7 @@ impl C05 {
             unsolicited: self.unsol,
             confirm_timeout_ms: CONFIRM_TIMEOUT,
             max_unsol_retries: Some(1),
-            event_buf: [10; 8],
+            event_buf: [self.event_buf; 8],
             ..Default::default()
         }
     }
@@ -218,6 +224,15 @@ impl Scenario for C05 {
                     let t = toggles;
                     sim.db(|db| {
                         db.update(0, &common::binary(v, t), UpdateOptions::detect_event());
+                    });
+                }
+                Ev::UpdMany => {
+                    sim.db(|db| {
+                        for _ in 0..MANY {
+                            toggles += 1;
+                            let v = toggles % 2 == 1;
+                            db.update((toggles % 3) as u16, &common::binary(v, toggles), UpdateOptions::detect_event());
+                        }
                     });
                 }
                 Ev::Timeout => sim.advance(CONFIRM_TIMEOUT),
@@ -356,6 +371,7 @@ fn scenarios(tier: &str) -> Vec<C05> {
         depth,
         tx,
         unsol,
+        event_buf: 10,
     };
     use R::*;
     let core = vec![Read0, Read1, WriteRestart, Direct, Select, Operate, DelayMeasure, DisableUnsol];
@@ -365,7 +381,19 @@ fn scenarios(tier: &str) -> Vec<C05> {
     // core requests deeper (multi-fragment series: Read0, confirm, confirm, repeat)
     v.push(mk("core-d4-tx249", alphabet(&core, false), 4, 249, false));
     v.push(mk("core-d4-tx249-unsol", alphabet(&core, false), 4, 249, true));
+    // a multi-fragment *event* series: every fragment, the final one included, awaits a confirm
+    let series = vec![Ev::Repeat, Ev::Req(Read1), Ev::SolConfirm(true), Ev::SolConfirm(false), Ev::UpdMany, Ev::Timeout];
+    let mut s = mk("event-series-d5-tx249", series.clone(), 5, 249, false);
+    s.event_buf = 250;
+    v.push(s);
     if tier == "thorough" {
+        let mut a = series.clone();
+        a.extend([Ev::Req(Read0), Ev::Upd, Ev::UnsConfirm, Ev::Reconnect]);
+        for (name, depth, tx, unsol) in [("event-series-d6-tx249", 6, 249, false), ("event-series-d6-tx300-unsol", 6, 300, true)] {
+            let mut s = mk(name, a.clone(), depth, tx, unsol);
+            s.event_buf = 250;
+            v.push(s);
+        }
         v.push(mk("all-fc-d4-tx249", alphabet(&all_requests(), true), 4, 249, false));
         v.push(mk("all-fc-d4-tx300-unsol", alphabet(&all_requests(), true), 4, 300, true));
         v.push(mk("all-fc-d3-tx2048-unsol", alphabet(&all_requests(), true), 3, 2048, true));
